@@ -77,20 +77,36 @@ ExpectedRecord(r) ==
 \* r.writes: per write call [sink, oneline, nl, level, spans (serials in textual order), toks (message tokens), fields_ok]
 \* r.mw: make_writer_for calls [sink, lvl, tgt];  r.nometa: make_writer() calls without metadata
 Rev(q) == [i \in 1..Len(q) |-> q[Len(q) + 1 - i]]
+\* one expected record `e` written to sink-wise exactly once, as the writes `ws` (one per routed sink)
+OneRecord(ws, e) ==
+  LET sinks == Route(cfg.writer, e.m) IN
+  /\ {ws[i].sink : i \in DOMAIN ws} = sinks                                           \* exactly the selected writers
+  /\ Len(ws) = Cardinality(sinks)                                                     \* ... each in a single write
+  /\ \A i \in DOMAIN ws :
+       LET w == ws[i] IN
+       /\ w.nl /\ (cfg.format # "pretty" => w.oneline)                                \* one complete newline-terminated record
+       /\ w.toks = <<e.tok>>                                                          \* this event, and nothing of any other
+       /\ w.level = (IF cfg.level THEN e.m.lvl ELSE 0)
+       /\ w.spans = (IF cfg.format = "pretty" THEN Rev(e.scope) ELSE e.scope)         \* the scope, in nesting order
+       /\ w.fields_ok
+\* r.nested: one of the event's fields has a Debug impl that itself emits an event (INFO, target a, message token n + 6000,
+\* contextual parent).  Where the collector is the process-wide default and no scoped default exists, that nested event is a
+\* record of its own, complete, BEFORE the outer one; under a scoped default the nested lookup is handed the no-op collector
+\* (the dispatcher's re-entrancy guard) and only the outer record appears.
+NestedRecord(r) == [m |-> [lvl |-> 3, tgt |-> "a"], scope |-> Anc(Cur(r.t)), tok |-> r.n + 6000, kind |-> "event"]
 RecordOk(r) ==
   LET e == ExpectedRecord(r) IN
   IF e.tok = 0 \/ ("aborted" \in DOMAIN r /\ r.aborted) THEN r.writes = << >>          \* nothing to write (an aborted format writes nothing)
+  ELSE IF "nested" \in DOMAIN r /\ r.nested /\ cfg.global THEN
+    LET ne == NestedRecord(r)
+        inner == SelectSeq(r.writes, LAMBDA w : w.toks = <<ne.tok>>)
+        outer == SelectSeq(r.writes, LAMBDA w : w.toks # <<ne.tok>>) IN
+    /\ OneRecord(inner, ne) /\ OneRecord(outer, e)
+    /\ r.writes = inner \o outer                                                       \* the nested record is complete before the outer one starts
+    /\ r.nometa = 0
   ELSE
   LET sinks == Route(cfg.writer, e.m) IN
-  /\ {r.writes[i].sink : i \in DOMAIN r.writes} = sinks                                 \* exactly the selected writers
-  /\ Len(r.writes) = Cardinality(sinks)                                                 \* ... each in a single write
-  /\ \A i \in DOMAIN r.writes :
-       LET w == r.writes[i] IN
-       /\ w.nl /\ (cfg.format # "pretty" => w.oneline)                                  \* one complete newline-terminated record
-       /\ w.toks = <<e.tok>>                                                            \* this event, and nothing of any other
-       /\ w.level = (IF cfg.level THEN e.m.lvl ELSE 0)
-       /\ w.spans = (IF cfg.format = "pretty" THEN Rev(e.scope) ELSE e.scope)           \* the scope, in nesting order
-       /\ w.fields_ok
+  /\ OneRecord(r.writes, e)
   /\ r.nometa = 0
   /\ \A i \in DOMAIN r.mw : r.mw[i].lvl = e.m.lvl /\ r.mw[i].tgt = e.m.tgt              \* asked with this event's metadata
   /\ \A s \in sinks : Cardinality({i \in DOMAIN r.mw : r.mw[i].sink = s}) = 1           \* ... once
